@@ -5,7 +5,7 @@ from .. import core, gens as G, exact as X, build as Bd
 from ..core import q, v2, F
 from ..build import P2, V2, P3, V3
 from ladybug_geometry.geometry2d import Polygon2D, Polyline2D
-from ladybug_geometry.geometry3d import Face3D, Polyline3D
+from ladybug_geometry.geometry3d import Face3D, Polyline3D, Plane
 
 RULE = ('base shapes whose corners turn by >= 5 degrees, decorated with 0..3 exactly-collinear (dyadic) points per edge and 0..2 '
         'duplicates per vertex, every cyclic rotation of the vertex list and both orientations; Polygon2D, Face3D (boundary and '
@@ -171,8 +171,16 @@ def fam_face_holes(ctx, rng, base, loop, z):
         k = rng.randrange(len(hl))
         hloops.append(hl[k:] + hl[:k])
     emb = lambda p: (p[0], p[1], z)
-    face = Face3D([P3(emb(p)) for p in loop], holes=[[P3(emb(p)) for p in h] for h in hloops])
-    desc = {'class': 'Face3D', 'loop': loop, 'base': base, 'holes': hloops, 'hole_bases': hbases}
+    # with no plane, or with an explicit plane whose normal agrees with or opposes the order the boundary is listed in
+    pmode = rng.choice(['none', 'up', 'down'])
+    plane = None if pmode == 'none' else Plane(V3((0.0, 0.0, 1.0 if pmode == 'up' else -1.0)), P3((0.0, 0.0, z)))
+    try:
+        face = Face3D([P3(emb(p)) for p in loop], plane, holes=[[P3(emb(p)) for p in h] for h in hloops])
+        if rng.random() < 0.3:
+            face = Face3D.from_dict(face.to_dict())
+    except Exception as e:
+        ctx.violation('Face3D.ctor:holes:raises', '%r' % (e,), {'loop': loop, 'holes': hloops, 'plane': pmode}); return
+    desc = {'class': 'Face3D', 'loop': loop, 'base': base, 'holes': hloops, 'hole_bases': hbases, 'plane': pmode}
     ctx.count('clean.Face3D.holes', key=(len(base), len(hbases), sum(len(h) for h in hloops)), sample=desc)
     for op in ('remove_colinear_vertices', 'remove_duplicate_vertices'):
         kind = 'Face3D.%s:holes' % op
@@ -183,6 +191,17 @@ def fam_face_holes(ctx, rng, base, loop, z):
             ctx.violation(kind + ':raises', '%r' % (e,), desc); return
         if len(r.holes or ()) != len(hloops):
             ctx.violation(kind + ':hole_count', '%d holes became %d' % (len(hloops), len(r.holes or ())), desc); return
+        # the outer boundary of the holed face: original vertices in cyclic order; for the colinear clean-up exactly the base corners
+        bres = [(p.x, p.y) for p in r.boundary]
+        bst = [(p.x, p.y) for p in face.boundary]
+        if not is_cyclic_subsequence(bres, bst):
+            ctx.violation(kind + ':boundary_order', 'boundary vertices are not original vertices in their cyclic order', desc); return
+        if op == 'remove_colinear_vertices' and not (cyclic_equal(bres, base) or cyclic_equal(bres, base[::-1])):
+            missing = [p for p in base if p not in bres]
+            ctx.violation(kind + (':boundary_corner_removed' if missing else ':boundary_redundant_kept'),
+                          'boundary of the holed face: result %d vertices, base %d (plane %s)' % (len(bres), len(base), pmode), desc); return
+        if not cyclic_equal([tuple(p) for p in r.boundary], [tuple(p) for p in r2.boundary]):
+            ctx.violation(kind + ':boundary_not_idempotent', 'second application changes the boundary', desc); return
         for hb, hl, stored, got in zip(hbases, hloops, face.holes, r.holes):
             res = [(p.x, p.y) for p in got]
             st = [(p.x, p.y) for p in stored]
